@@ -118,7 +118,7 @@ type built struct {
 const oidUnknown = "1.3.6.1.4.1.99999.1.2"
 
 // nArrange is the number of EF.CardAccess arrangements build knows.
-const nArrange = 9
+const nArrange = 11
 
 // build personalises a conforming chip for the case.
 func build(c *paceCase, deviate func(string, []byte) []byte) *built {
@@ -171,6 +171,10 @@ func build(c *paceCase, deviate func(string, []byte) []byte) *built {
 		infos = [][]byte{lds.PACEInfo(paceArcUnknownCipher, 2, big.NewInt(31)), lds.PACEInfo(imOID, 2, big.NewInt(int64(otherID))), lds.PACEInfo(dhOID, 2, big.NewInt(2)),
 			main, lds.PACEInfo(second, 2, big.NewInt(int64(otherID)))}
 		entries = append(entries, chipsim.PaceEntry{OID: second, ParamID: otherID})
+	case 9: // a PACEDomainParameterInfo (proprietary-parameter style entry, protocol OID without the cipher arc) before the PACEInfo
+		infos = [][]byte{lds.PACEDomainParameterInfo("0.4.0.127.0.7.2.2.4.2", c.ParamID, big.NewInt(int64(c.ParamID))), main}
+	case 10: // the same after it, for the other mapping families as well
+		infos = [][]byte{main, lds.PACEDomainParameterInfo("0.4.0.127.0.7.2.2.4.4", otherID, nil), lds.PACEDomainParameterInfo("0.4.0.127.0.7.2.2.4.6", c.ParamID, big.NewInt(int64(c.ParamID)))}
 	}
 	b := &built{}
 	b.cardAccess = lds.CardAccess(infos...)
